@@ -2489,6 +2489,36 @@ func (svStream) Gen(r *rand.Rand, tier string, idx int) []string {
 		}
 		lines = append(lines, "sv load "+svJSON(mu.p))
 	}
+	// kind / type field against the oneof, systematically: one attribute under every declared type,
+	// one signal under every declared kind (the random mutation reaches a given pair too rarely)
+	if n := len(saved.Attrs); n > 0 {
+		i := r.Intn(n)
+		for tag := 0; tag < 6; tag++ {
+			if tag == saved.Attrs[i].Tag {
+				continue
+			}
+			v := svClone(saved)
+			v.Attrs[i].Tag = tag
+			lines = append(lines, "sv load "+svJSON(v))
+		}
+	}
+	{
+		v := svClone(saved)
+		mu := &svMut{r: r, p: v}
+		if all, _ := mu.sigs(); len(all) > 0 {
+			i := r.Intn(len(all))
+			orig := all[i].Kind
+			for kind := 0; kind < 5; kind++ {
+				if kind == orig {
+					continue
+				}
+				w := svClone(saved)
+				wa, _ := (&svMut{r: r, p: w}).sigs()
+				wa[i].Kind = kind
+				lines = append(lines, "sv load "+svJSON(w))
+			}
+		}
+	}
 	return lines
 }
 
